@@ -152,6 +152,10 @@ class Gen:
         if kind in ("i", "s", "b"):
             return self.scalar(kind)
         k = kind or r.choice(["sc", "sc", "sc", "U", "FS", "O"])
+        if kind is None and r.random() < 0.06:      # hashable subclass instances as set elements / dict keys
+            c = r.choice(["StrSub", "IntSub", "TupleSub", "FSetSub"])
+            return ["X", c, self.scalar("s") if c == "StrSub" else (self.scalar("i") if c == "IntSub" else
+                            (["U", [self.scalar("i")]] if c == "TupleSub" else ["FS", [self.scalar("s"), self.scalar("i")]]))]
         if depth <= 0 or k == "sc":
             return self.scalar()
         if k == "U":
@@ -194,6 +198,28 @@ class Gen:
 
     def value(self, depth):
         r = self.r
+        if r.random() < 0.12:
+            return self.subclass(depth)
+        return self.plain_value(depth)
+
+    def subclass(self, depth):
+        """instance of a subclass of a builtin container / scalar type (at top level or, through the callers, nested)"""
+        r = self.r
+        c = r.choice(["SetSub", "SetSub", "SetSub", "FSetSub", "ListSub", "DictSub", "TupleSub", "StrSub", "IntSub"])
+        if c == "SetSub":
+            return ["X", c, ["S", self.elements(max(depth - 1, 0))]]
+        if c == "FSetSub":
+            return ["X", c, ["FS", self.elements(max(depth - 1, 0))]]
+        if c == "ListSub":
+            return ["X", c, ["L", [self.value(depth - 1) for _ in range(r.choice([0, 1, 2]))]]]
+        if c == "TupleSub":
+            return ["X", c, ["U", [self.value(depth - 1) for _ in range(r.choice([0, 1, 2]))]]]
+        if c == "DictSub":
+            return ["X", c, ["D", [[self.scalar("s"), self.value(depth - 1)]] if r.random() < 0.8 else []]]
+        return ["X", c, self.scalar("s" if c == "StrSub" else "i")]
+
+    def plain_value(self, depth):
+        r = self.r
         k = r.random()
         if depth <= 0 or k < 0.12:
             return self.scalar()
@@ -235,13 +261,25 @@ def permuted(sp, rng, mode):
         return [t, [[permuted(k, rng, mode), permuted(v, rng, mode)] for k, v in sp[1]]]
     if t == "O":
         return [t, sp[1], [permuted(x, rng, mode) for x in sp[2]]]
+    if t == "X":
+        return [t, sp[1], permuted(sp[2], rng, mode)]
     return sp
 
 
 def features(sp, top=True, acc=None):
     """structural class of a specification (for finding signatures and the evidence distribution)"""
+    if sp[0] == "X":
+        # an instance of a subclass: a `set` subclass at top level reaches the Set proxy like an exact set (MRO walk)
+        if acc is None and sp[1] == "SetSub":
+            acc = features(sp[2], True, None)
+            acc["subclass"] = True
+            return acc
+        if acc is None:
+            acc = dict(sets=0, nested_multi=False, top="X", mixed_top=False, partial_top=False, extras=False, subclass=True)
+        acc["subclass"] = True
+        return features(sp[2], False, acc)
     if acc is None:
-        acc = dict(sets=0, nested_multi=False, top=sp[0], mixed_top=False, partial_top=False, extras=False)
+        acc = dict(sets=0, nested_multi=False, top=sp[0], mixed_top=False, partial_top=False, extras=False, subclass=False)
     t = sp[0]
     if t in ("S", "FS"):
         acc["sets"] += 1
@@ -249,6 +287,8 @@ def features(sp, top=True, acc=None):
             acc["nested_multi"] = True
         if top and t == "S":
             kinds = {("num" if x[0] in ("i", "T", "F", "f") else x[0]) for x in sp[1]}
+            if "X" in kinds:
+                acc["subclass"] = True
             acc["mixed_top"] = len(kinds) > 1
             acc["partial_top"] = len(sp[1]) >= 2 and bool(kinds & {"FS", "U", "O"})
         for x in sp[1]:
@@ -352,6 +392,10 @@ CORPUS = [
     S(["FS", LETTERS[:4]], i_(1)),                                 # ... but not when an element has several layouts
     S(["U", [i_(1), s_("a")]], ["U", [i_(2), s_("b")]], ["U", [i_(0), s_("c")]]),
     S(["FS", [s_("a")]], ["FS", [s_("b")]], ["FS", [s_("c")]], ["FS", [s_("d")]]),     # incomparable elements
+    ["X", "SetSub", S(*LETTERS)], ["X", "SetSub", S(i_(8), i_(0), i_(16), i_(24))], ["X", "SetSub", S()],       # subclasses of builtins
+    ["L", [["X", "SetSub", S(s_("a"), s_("b"))]]], ["X", "ListSub", ["L", [i_(1), ["X", "SetSub", S(s_("p"), s_("q"))]]]],
+    ["X", "FSetSub", ["FS", LETTERS[:3]]], ["X", "DictSub", ["D", [[s_("k"), i_(1)]]]], ["X", "TupleSub", ["U", [i_(1), s_("a")]]],
+    ["X", "StrSub", s_("abc")], ["X", "IntSub", i_(7)], ["D", [[["X", "StrSub", s_("k")], ["X", "IntSub", i_(1)]]]],
     ["O", "CP2", [i_(1)]], ["L", [["O", "CP2", [s_("x")]]]],      # dataclass instances with two non-field __dict__ entries
     ["O", "M2", [S(*LETTERS), i_(1)]], ["U", [["FS", LETTERS[:5]], ["FS", LETTERS[3:]]]],
     ["L", [s_("ab"), s_("ab")]], ["L", [i_(1), ["T"]]], ["U", [i_(1)]], ["L", [i_(1)]], ["D", [[s_("a"), i_(1)], [s_("b"), i_(2)]]],
@@ -368,21 +412,12 @@ def run_workers(docs, seeds, modes=None):
         with open(inp, "w") as f:
             for did, sp, sched in docs:
                 f.write(json.dumps({"id": did, "spec": sp, "sched": bool(sched)}) + "\n")
-        # compile redun's modules once into a private bytecode cache (there is none next to /repo's sources); the
-        # interpreters started below only load it
-        env0 = dict(os.environ, PYTHONPYCACHEPREFIX=os.path.join(tmp, "pyc"))
-        env0.pop("PYTHONDONTWRITEBYTECODE", None)
-        env0.pop("PYTHONPATH", None)
-        subprocess.run([sys.executable, "-c", "import sys; sys.path.insert(0, sys.argv[1]); import redun, redun.value, "
-                        "redun.scheduler, redun.backends.db, redun.config", core.REPO], env=env0, cwd=tmp, capture_output=True,
-                       timeout=300)
         procs = []
         modes = modes or ["fwd"] * len(seeds)
         for sd, mode in zip(seeds, modes):
             env = dict(os.environ)
             env["PYTHONHASHSEED"] = str(sd)
-            env["PYTHONPYCACHEPREFIX"] = os.path.join(tmp, "pyc")
-            env.pop("PYTHONDONTWRITEBYTECODE", None)
+            env["PYTHONDONTWRITEBYTECODE"] = "1"      # never write bytecode next to /repo's sources
             env.pop("PYTHONPATH", None)
             procs.append((sd, mode, subprocess.Popen([sys.executable, WORKER, core.REPO, mode], stdin=open(inp), stdout=subprocess.PIPE,
                                                stderr=subprocess.PIPE, text=True, env=env, cwd=tmp)))
@@ -399,7 +434,7 @@ def run_workers(docs, seeds, modes=None):
             for line in out.split("\n"):
                 if line:
                     cols = line.split("\t")
-                    if len(cols) != 8:
+                    if len(cols) != 9:
                         raise core.Infra("C16 worker: malformed reply " + line[:200])
                     table[cols[0]] = tuple(cols[1:])
             want = len(docs) if mode in ("fwd", "rev") else sum(
@@ -421,6 +456,8 @@ OBSERVABLES = [     # (name, column in the worker row, model request, enters the
     ("Argument.value_hash of a task call", 4, "record", False),
     ("CallNode.value_hash (result) of a task call", 5, "record", False),
     ("CallNode.args_hash of a task call", 6, "record", False),
+    # once more after record_value, which makes the registry resolve (and memoise) the proxy of the value's type
+    ("TypeRegistry.get_hash(value) after record_value", 7, "hash", True),
 ]
 SCHED_COLS = (4, 5, 6)
 
@@ -534,7 +571,7 @@ def check_specs(ctx, specs, seeds, nvar, stream_of=None, nsched=0, families=(), 
         verdicts.append(sens_any)
         # ---- the ways of obtaining the hash agree inside one process
         for sd, did, row in runs:
-            same_obj = {row[c] for c in (1, 2, 3)}
+            same_obj = {row[c] for c in (1, 2, 3, 7)}
             # the scheduler rebuilds containers (map_nested_value): its two hashes belong to another layout of the value and
             # are compared only where the layout cannot matter (no nested multi-element set, model not `unspecified`)
             comparable = not ft["nested_multi"] and not ft["extras"] and replies["record"][row[0]] != "unspecified"
@@ -574,8 +611,9 @@ def check_specs(ctx, specs, seeds, nvar, stream_of=None, nsched=0, families=(), 
 
 
 def seeds_for(ctx):
-    extra = [ctx.rng.randrange(4, 2 ** 32 - 1) for _ in range(2 if ctx.tier == "quick" else 8)]
-    return [0, 1, 2, 3] + extra
+    if ctx.tier == "quick":       # 3 interpreters (importing redun costs ~6 s CPU each): 2 fixed hash seeds + 1 drawn
+        return [0, 1, ctx.rng.randrange(2, 2 ** 32 - 1)]
+    return [0, 1, 2, 3] + [ctx.rng.randrange(4, 2 ** 32 - 1) for _ in range(8)]
 
 
 def unshare(sp):
@@ -614,7 +652,7 @@ SHARED = [
 
 def modes_for(seeds):
     """the history of each interpreter: order in which it meets the values / which half of them it meets at all"""
-    cyc = ["fwd", "rev", "fwd", "rev", "even", "odd", "evenrev", "oddrev", "fwd", "rev", "even", "odd"]
+    cyc = ["fwd", "rev", "oddrev", "even", "fwd", "rev", "odd", "evenrev", "fwd", "rev", "even", "odd"]
     return [cyc[i % len(cyc)] for i in range(len(seeds))]
 
 
@@ -634,7 +672,7 @@ def run(ctx):
         shared[len(specs)] = sp
         specs.append(unshare(sp))
     ncorp = len(specs)
-    for _ in range(ctx.n(500, 9000)):
+    for _ in range(ctx.n(400, 9000)):
         specs.append(g.value(ctx.rng.choice([1, 2, 2, 3, 4])))
     seeds = seeds_for(ctx)
     verdicts = check_specs(ctx, specs, seeds, 3 if ctx.tier == "quick" else 4,
